@@ -32,7 +32,7 @@ ASSUMPTIONS = ['documented exceptions: estimate state (transform, bias) of Estim
                'EstimationModel / Parameters / Turntable methods may change their own object but never their arguments',
                'Turntable.generate_imu is excluded: it raises at baseline under scipy 1.18 (test_Turntable fails in BASELINE.json)',
                'values across argument forms compared to <= 4 ulp of the result scale (spline-based synthesis: 2e4 ulp, i.e. 4e-12 relative, because memory layout changes summation order); repeats of the same form bitwise']
-REQUIRED_OBS = ['poison_comparisons', 'concurrent_calls_compared', 'stack_of_one_runs', 'permuted_column_runs', 'integer_form_comparisons', 'index_name_runs', 'history_replays', 'module_state_checks', 'callables_enumerated', 'callables_with_spec', 'purity_checks', 'readonly_runs', 'determinism_checks',
+REQUIRED_OBS = ['batch_prefix_runs', 'scalar_guise_runs', 'poison_comparisons', 'concurrent_calls_compared', 'stack_of_one_runs', 'permuted_column_runs', 'integer_form_comparisons', 'index_name_runs', 'history_replays', 'module_state_checks', 'callables_enumerated', 'callables_with_spec', 'purity_checks', 'readonly_runs', 'determinism_checks',
                 'form_comparisons', 'schema_checks', 'ambient_calls_checked']
 REQUIRED_CLASSES = {'all': ['directed', 'ambient', 'poison', 'threads']}
 MODULES = ['earth', 'error_model', 'filters', 'inertial_sensor', 'kalman', 'measurements', 'sim', 'strapdown', 'transform', 'util']
@@ -165,7 +165,7 @@ def specs(rng):
     from pyins import (earth, error_model, filters, inertial_sensor, kalman, measurements, sim, strapdown, transform, util)
     F = fixtures()
     t, L, R, V, traj, imu, inc = F['t'], F['L'], F['R'], F['V'], F['traj'], F['imu'], F['inc']
-    n = 7
+    n = 19
     lat = rng.uniform(-80, 80, n)
     lon = rng.uniform(-180, 180, n)
     alt = rng.uniform(0, 1e4, n)
@@ -708,6 +708,43 @@ def extra_forms(name, call, sd, where, bump):
                 out.append(vio('single_vs_stacked', f'{where}: a stack holding one point gives something else than the first row of the full stack: {bad[:3]}'))
         except Exception as e:
             out.append(vio('form_rejected', f'{where}: a stack holding one point raised {type(e).__name__}: {e}'))
+    # ---- batch length: every prefix of the stack (lengths 1, 2, 3, 4, 5, 8, 9, 16, 17, n - 1) gives the prefix of the full result - first and last
+    # elements included (a vectorised tail, a parity-dependent path, an off-by-one at the end of the batch)
+    stackpos = [i for i in call.vary if isinstance(call.args[i], np.ndarray) and call.args[i].ndim >= 1]
+    if call.single is not None and call.compare and stackpos and len({len(call.args[i]) for i in stackpos}) == 1:
+        N_ = len(call.args[stackpos[0]])
+        try:
+            _, r_all = invoke(call, [clone(a) for a in call.args], sd)
+            cut = (lambda r, m: tuple(np.asarray(x)[:m] for x in r)) if isinstance(r_all, tuple) else (lambda r, m: np.asarray(r)[:m])
+            full_ok = (all(len(np.asarray(x)) == N_ for x in r_all) if isinstance(r_all, tuple) else len(np.asarray(r_all)) == N_)
+            for m_ in [m for m in (1, 2, 3, 4, 5, 8, 9, 16, 17, N_ - 1) if 0 < m < N_] if full_ok else []:
+                args = [np.array(a[:m_], copy=True) if i in stackpos else clone(a) for i, a in enumerate(call.args)]
+                _, r_m = invoke(call, args, sd)
+                bump('batch_prefix_runs')
+                bad = purity.compare_flat(purity.flatten(cut(r_all, m_)), purity.flatten(r_m if not isinstance(r_m, tuple) else tuple(np.asarray(x) for x in r_m)), ulp=call.ulp)
+                if bad:
+                    out.append(vio('batch_length_dependent', f'{where}: the first {m_} points alone give something else than the first {m_} rows of the stack of {N_}: {bad[:3]}'))
+                    break
+        except Exception as e:
+            out.append(vio('form_rejected', f'{where}: a shorter stack raised {type(e).__name__}: {e}'))
+    # ---- one number in its Python / numpy guises: float, numpy.float64, 0-d array, 1-element array, int where it is whole
+    if (name.startswith('earth.') or name in ('transform.mat_en_from_ll', 'util.to_180_range')) and call.compare and call.vary and \
+            all(isinstance(call.args[i], np.ndarray) and call.args[i].ndim == 1 for i in call.vary):
+        try:
+            _, r_all = invoke(call, [clone(a) for a in call.args], sd)
+            row0 = purity.flatten(tuple(np.asarray(x)[0] for x in r_all) if isinstance(r_all, tuple) else np.asarray(r_all)[0])
+            for guise, conv in (('float', lambda v: float(v)), ('numpy.float64', lambda v: np.float64(v)), ('0-d array', lambda v: np.array(float(v))),
+                                ('1-element array', lambda v: np.array([float(v)])), ('1-element list', lambda v: [float(v)])):
+                args = [conv(a[0]) if i in call.vary else clone(a) for i, a in enumerate(call.args)]
+                _, r_g = invoke(call, args, sd)
+                bump('scalar_guise_runs')
+                g = tuple(np.asarray(x).reshape(np.asarray(x).shape[1:] if guise.startswith('1-element') else np.asarray(x).shape) for x in r_g) if isinstance(r_g, tuple) \
+                    else (np.asarray(r_g)[0] if guise.startswith('1-element') else np.asarray(r_g))
+                bad = purity.compare_flat(row0, purity.flatten(g), ulp=call.ulp)
+                if bad:
+                    out.append(vio('form_dependent_values', f'{where}: the single point given as {guise} gives something else than row 0 of the stacked call: {bad[:3]}'))
+        except Exception as e:
+            out.append(vio('form_rejected', f'{where}: a scalar guise raised {type(e).__name__}: {e}'))
     # ---- label-addressed tables with their columns in another order
     if call.labelled and call.compare:
         prng = np.random.Generator(np.random.PCG64(len(where)))
